@@ -209,6 +209,8 @@ func (Driver) Run(c *core.Ctx) {
 	if c.Batch == 0 {
 		runCorpus(c, 1_000_000_000)
 		runCatalogue(c, 2_000_000_000)
+		runTwins(c, 3_000_000_000)
+		runNullPairs(c, 4_000_000_000)
 	}
 }
 
